@@ -142,6 +142,21 @@ class Fn:
             val = v["value"]
             if "local" in val:
                 self.var_places.append((v["name"], val["local"], val["proj"]))
+        # shadowed names: the 2nd, 3rd .. distinct local carrying a name is rendered
+        # `name__2`, `name__3` so that a name denotes one local (macro-generated names kept)
+        firsts = {}
+        for nm, l, pj in sorted(self.var_places, key=lambda x: x[1]):
+            if not pj:
+                firsts.setdefault(nm, [])
+                if l not in firsts[nm]:
+                    firsts[nm].append(l)
+        ren = []
+        for nm, l, pj in self.var_places:
+            if not pj and len(firsts.get(nm, ())) > 1 and firsts[nm].index(l) > 0 and not nm.startswith("__"):
+                ren.append(("%s__%d" % (nm, firsts[nm].index(l) + 1), l, pj))
+            else:
+                ren.append((nm, l, pj))
+        self.var_places = ren
         self.var_places.sort(key=lambda x: -len(x[2]))
         self._defs = None
         self._succ = None
